@@ -53,6 +53,14 @@ def setup(ctx):
 
     def wrapped(X, metric, medoid_inds, assignments, distances,
                 proposals=None, cost=None, random_state=None):
+        if len(medoid_inds) and isinstance(medoid_inds[0], tuple):
+            # (rank, index) form of the MPI mode: recorded at result level
+            # only (run_mpi_form)
+            ctx.cur = None
+            ctx.h_calls += 1
+            kw = {} if cost is None else {'cost': cost}
+            return orig(X, metric, medoid_inds, assignments, distances,
+                        proposals=proposals, random_state=random_state, **kw)
         sw = {'in_inds': [int(i) for i in medoid_inds],
               'in_assig': np.array(assignments, copy=True),
               'in_dist': np.array(distances, copy=True),
@@ -74,6 +82,8 @@ def setup(ctx):
     ctx.h_calls = 0
 
     def probe(loc):
+        if ctx.cur is None:
+            return
         ctx.cur['probe'].append({
             'cid': int(loc['cid']),
             'proposal': int(loc['proposed_center_ind']),
@@ -208,7 +218,7 @@ def result_digest(res):
 
 def make_case(rng):
     form = ['cold', 'warm', 'props', 'props', 'hybrid', 'hybrid', 'KM_est',
-            'HY_est', 'warm_state'][int(rng.integers(0, 9))]
+            'HY_est', 'warm_state', 'mpi1'][int(rng.integers(0, 10))]
     if form == 'props' and rng.random() < 0.7:
         # tie-free data for the independent reference PAM
         X, info = cc.gen_data(rng, nmax=40, nmin=3, dtype=np.float64,
@@ -275,6 +285,11 @@ def run_case(ctx, kind, rng, idx):
                 X=X if X.size <= 100 else 'elided')
     ctx.describe(desc)
     ctx.seen('forms', form)
+    if form == 'mpi1':
+        if kind == 'fresh':
+            form = 'hybrid'
+        else:
+            return run_mpi_form(ctx, rng, idx, X, info, mname, k, iters, seed)
     if kind == 'fresh':
         if form == 'KM_est':
             form = 'warm'     # the estimator takes no seed: nothing promised
@@ -369,6 +384,70 @@ def run_case(ctx, kind, rng, idx):
                                  for sw in sweeps][:2]))
 
 
+def flat_result(res):
+    ci = [int(c[1]) if isinstance(c, tuple) else int(c)
+          for c in res.center_indices]
+    return util.ClusterResult(center_indices=ci, distances=res.distances,
+                              assignments=res.assignments,
+                              centers=res.centers)
+
+
+def run_mpi_form(ctx, rng, idx, X, info, mname, k, iters, seed):
+    """The (rank, index) route of k-hybrid / k-medoids on a one-rank world:
+    function and estimator form.  Result-level guarantees only."""
+    m = cc.metric_arg(mname)
+    tol = cc.tol_for(X)
+    est = bool(rng.random() < 0.5)
+    tag = 'mpi1-est' if est else 'mpi1-fn'
+    ctx.seen('forms', tag)
+
+    def run(n_it):
+        if est:
+            e = hybrid.KHybrid(m, n_clusters=k, kmedoids_updates=n_it,
+                               random_state=seed, mpi_mode=True)
+            e.fit(X)
+            return e.result_
+        return hybrid.hybrid(X, m, n_iters=n_it, n_clusters=k,
+                             random_state=seed, mpi_mode=True)
+    try:
+        res = run(iters)
+        res_b = run(iters)
+        res_more = run(iters + 1)
+    except Exception as e:  # noqa
+        ctx.crash('pam.%s.raised' % tag, e)
+        return
+    ctx.count('mpi_form_results')
+    ctx.count('sweeps_checked', 0)
+    if not all(isinstance(c, tuple) and int(c[0]) == 0
+               for c in res.center_indices):
+        ctx.violation('pam.mpi1.index-form', 'center indices %r' % (
+            list(res.center_indices)[:4],))
+        return
+    fr, fb, fm = flat_result(res), flat_result(res_b), flat_result(res_more)
+    if len(fr.center_indices) != min(k, len(X)):
+        ctx.violation('pam.cluster-count-changed', '[%s] asked %d got %d' % (
+            tag, k, len(fr.center_indices)))
+    cc.check_result(ctx, X, mname, fr, 'pam.result[mpi1]')
+    cc.check_result(ctx, X, mname, fm, 'pam.result[mpi1]')
+    kc = kcenters.kcenters(X, m, n_clusters=k)
+    c0, c1, c2 = cc.msq(kc.distances), cc.msq(fr.distances), \
+        cc.msq(fm.distances)
+    ctx.count('hybrid_vs_kcenters')
+    if c1 > c0 + tol * (1 + c0):
+        ctx.violation('pam.hybrid-worse-than-kcenters',
+                      '[%s] hybrid cost %.12g > k-centers cost %.12g' % (
+                          tag, c1, c0))
+    if c2 > c1 + tol * (1 + c1):
+        ctx.violation('pam.more-sweeps-worse',
+                      '[%s] %d sweeps cost %.12g, %d sweeps cost %.12g' % (
+                          tag, iters, c1, iters + 1, c2))
+    if result_digest(fr) != result_digest(fb):
+        ctx.violation('pam.not-reproducible',
+                      '[%s] same seed %d gave different results' % (tag, seed))
+    if len(fr.center_indices) >= 3:
+        ctx.nontriv(X.tobytes(), mname, k, iters, tag, seed)
+
+
 def run_fresh(ctx, rng, idx, X, mname, k, iters, form, seed, inds, props):
     """Same seed in a fresh interpreter gives the same result."""
     res = execute(X, mname, k, iters, form, seed, inds, props)
@@ -405,5 +484,7 @@ if __name__ == '__main__':
     X, info, mname, k, iters, form, seed, inds, props = make_case(rng)
     if form == 'KM_est':
         form = 'warm'
+    if form == 'mpi1':
+        form = 'hybrid'
     r = execute(X, mname, k, iters, form, seed, inds, props)
     print(json.dumps({'digest': result_digest(r)}))
